@@ -13,6 +13,13 @@ Part E1 (product of configurations, every member executed on the real solvers)
     from the public F and P only -- is non-increasing in the iteration count from the same initialisation,
     and equals get_cost() (AltMin always, MinLeakage for single streams).
 
+    Long runs judged PER ITERATION (AltMin, MinLeakage; K >= 3, unequal stream counts, alignment infeasible):
+    precoders set by hand, initialize_with='fix', max_iterations=1, 150 (thorough 400) solve() calls; the
+    leakage must not increase at any step, and every MinLeakage step is compared with a first-principles
+    optimum: the produced F[l] must reach the sum of the Ns_l least eigenvalues of the check's own reverse
+    covariance R_l = sum_{k != l} H_kl^H (PI_k / Ns_k) H_kl built from the receive subspaces of the previous
+    precoders (catches any wrong weighting of the interferers in a single step).
+
 Part E3 (explicit-state BFS over setter histories after a solve)
     state = real solver object reached by `solve` followed by a history over 16 events
     (P=scalar/vector/None, set_precoders(F=array|list), set_precoders(full_F=,P=),
@@ -297,9 +304,13 @@ def shapes_of(v):
         return repr(type(v).__name__)
 
 
-def leakage(FF, hkl, K, Ns):
+def leakage(FF, hkl, K, Ns, per_stream=False):
     """total interference power leaking into the best Ns_k-dimensional receive
-    subspaces: sum_k (sum of the Ns_k smallest eigenvalues of Q_k)"""
+    subspaces: sum_k (sum of the Ns_k smallest eigenvalues of Q_k).
+    per_stream=True: every receiver's term divided by Ns_k = the leaked power seen through
+    receive filters of unit Frobenius norm (orthonormal columns / sqrt(Ns_k)), which is what the
+    minimum-leakage solver reports as W and what its two alternating steps both minimise; the two
+    objectives differ only when the users have different stream counts"""
     tot = 0.0
     scale = 0.0
     for k in range(K):
@@ -310,9 +321,128 @@ def leakage(FF, hkl, K, Ns):
                 A_ = hkl(k, l) @ FF[l]
                 Q = Q + A_ @ A_.conj().T
         ev = np.linalg.eigvalsh((Q + Q.conj().T) / 2.0)
-        tot += float(np.sum(np.sort(ev)[:Ns[k]]))
-        scale += float(np.sum(np.abs(ev)))
+        w = 1.0 / Ns[k] if per_stream else 1.0
+        tot += w * float(np.sum(np.sort(ev)[:Ns[k]]))
+        scale += w * float(np.sum(np.abs(ev)))
     return tot, scale
+
+
+def minleakage_step_optimality(Fin, Fout, P, hkl, K, Ns):
+    """first-principles oracle for ONE minimum-leakage iteration started from the precoders Fin
+    (equal powers).  The receive subspaces chosen for Fin are the Ns_k least-dominant
+    eigenvectors of Q_k(Fin) (projector PI_k); with them fixed the precoder of user l must
+    minimise the true leaked power  sum_{k != l} || W_k^H H_kl F_l ||^2,  W_k W_k^H = PI_k / Ns_k,
+    i.e. tr(F_l^H R_l F_l) with R_l = sum_{k != l} H_kl^H (PI_k / Ns_k) H_kl  computed here from
+    H only.  Returns a list of (l, achieved, optimum, scale) or None if an eigen-gap is too small
+    for the subspace to be well defined."""
+    PI = []
+    for k in range(K):
+        Nr_k = hkl(k, k).shape[0]
+        Q = np.zeros((Nr_k, Nr_k), dtype=complex)
+        for l in range(K):
+            if l != k:
+                A_ = hkl(k, l) @ Fin[l] * math.sqrt(P[l])
+                Q = Q + A_ @ A_.conj().T
+        ev, V = np.linalg.eigh((Q + Q.conj().T) / 2.0)
+        if Ns[k] < Nr_k and not (ev[Ns[k]] - ev[Ns[k] - 1]) > 1e-7 * max(abs(ev[-1]), 1e-300):
+            return None
+        U = V[:, :Ns[k]]
+        PI.append(U @ U.conj().T / Ns[k])
+    out = []
+    for l in range(K):
+        Nt_l = hkl(l, l).shape[1]
+        R = np.zeros((Nt_l, Nt_l), dtype=complex)
+        for k in range(K):
+            if k != l:
+                R = R + hkl(k, l).conj().T @ PI[k] @ hkl(k, l)
+        R = (R + R.conj().T) / 2.0
+        ev = np.linalg.eigvalsh(R)
+        opt = float(np.sum(ev[:Ns[l]])) / Ns[l]
+        ach = float(np.real(np.trace(Fout[l].conj().T @ R @ Fout[l])))
+        out.append((l, ach, opt, float(np.sum(np.abs(ev)))))
+    return out
+
+
+STEP_CFGS = [          # K >= 3, unequal stream counts among the interferers, alignment infeasible
+    (3, [3, 3, 3], [3, 3, 3], [2, 1, 2]),
+    (4, [4, 4, 4, 4], [4, 4, 4, 4], [3, 1, 2, 1]),
+    (3, [4, 4, 4], [4, 4, 4], [3, 1, 2]),
+]
+
+
+def step_cases(tier):
+    thorough = tier == "thorough"
+    out = []
+    for name in ITERATIVE[:2]:
+        for (K, Nr, Nt, Ns) in STEP_CFGS:
+            for P in ((1.0, 1e-6, 1e3) if thorough else (1.0,)):
+                for (s, hs) in (members(tier) if thorough else members(tier)[:3]):
+                    out.append(dict(part="E1", kind="steps", solver=name, K=K, Nr=list(Nr), Nt=list(Nt),
+                                    Ns=list(Ns), P=P, noise=None, s=s, hscale=hs, best=None, init="fix",
+                                    steps=400 if thorough else 150))
+    return out
+
+
+def run_steps_case(chk, case):
+    """a long run judged PER ITERATION: precoders set by hand, initialize_with='fix',
+    max_iterations=1, one solve() per iteration (public API only)"""
+    name, K, Nr, Nt = case["solver"], case["K"], case["Nr"], case["Nt"]
+    req = ns_vec(case["Ns"], K)
+    ml = name == "MinLeakageIASolver"
+    with chk.guard(("solve", name, "oracle"), case):
+        m, H = make_channel(case["s"], K, Nr, Nt, None, case.get("hscale", 1.0))
+        hkl = blocks(H, Nr, Nt)
+        sv = make_solver(name, m, None, 1)
+        own_rng(sv, 1000 + case["s"])
+        Pv = p_vec(case["P"], K)
+        Fin = []
+        for k in range(K):
+            a = families.generic(case["s"] + 95, (Nt[k], req[k]), tag=60 + k)
+            Fin.append(a / np.linalg.norm(a))
+        sv.set_precoders(F=obj_array([np.array(x) for x in Fin]), P=np.array(Pv))
+        sv.initialize_with = "fix"
+        sv.max_iterations = 1
+        prev = None
+        for it in range(1, case["steps"] + 1):
+            sv.solve(list(case["Ns"]), case["P"])
+            chk.count("eval_solves")
+            F, FF = as_list(sv.F, K), as_list(sv.full_F, K)
+            if F is None or FF is None or [f.shape for f in F] != [(Nt[k], req[k]) for k in range(K)]:
+                chk.count("step_runs_ended_by_rank_reduction")
+                break
+            if it in (1, 2, 10, case["steps"]):
+                check_solution(chk, sv, H, case, it)
+            J, sc = leakage(FF, hkl, K, req, per_stream=(name == "MinLeakageIASolver"))
+            if prev is not None:
+                chk.count("eval_cost_steps")
+                if J < prev * (1 - 1e-6):
+                    chk.outcome("cost_strictly_decreased", (name, K, tuple(Nr), "steps"))
+                if not J <= prev * (1 + COST_RTOL) + COST_ATOL * sc:
+                    chk.fail(("solve", name, "leakage_increases"), dict(case, n=[it - 1, it]),
+                             observed="J(%d)=%r -> J(%d)=%r (relative increase %.3g)"
+                             % (it - 1, prev, it, J, J / prev - 1), expected="non-increasing")
+                    break
+            if it == case["steps"]:
+                chk.outcome("residual_leakage_fraction", (name, K, tuple(req), round(math.log10(max(J / sc, 1e-30)))))
+            prev = J
+            if ml:
+                r = minleakage_step_optimality(Fin, F, Pv, hkl, K, req)
+                if r is None:
+                    chk.count("excluded_step_oracle_small_eigen_gap")
+                else:
+                    chk.count("eval_step_optimality_relations", len(r))
+                    for (l, ach, opt, scl) in r:
+                        if not ach <= opt * (1 + 1e-8) + 1e-11 * scl:
+                            chk.fail(("solve", name, "precoder_update_not_leakage_optimal"),
+                                     dict(case, n=it, user=l),
+                                     observed="leakage of the produced F[%d] through the fixed receive "
+                                     "subspaces = %r" % (l, ach),
+                                     expected="minimum %r (Ns least eigenvalues of the check's own reverse "
+                                     "covariance)" % opt)
+                            ml = False          # reported once; the run goes on for the monotonicity
+                            break
+            Fin = F
+        chk.nontriv((name, K, tuple(Nr), tuple(req), "steps", repr(case["P"]), case["s"], case.get("hscale", 1.0)))
 
 
 # ----------------------------------------------------------------------
@@ -522,6 +652,8 @@ def check_solution(chk, sv, H, case, n):
 
 
 def run_e1_case(chk, case):
+    if case.get("kind") == "steps":
+        return run_steps_case(chk, case)
     name = case["solver"]
     K, Nr, Nt = case["K"], case["Nr"], case["Nt"]
     req = ns_vec(case["Ns"], K)
@@ -577,7 +709,7 @@ def run_e1_case(chk, case):
             equal_p = len(set(p_vec(case["P"], K).tolist())) == 1
             if (name in ITERATIVE[:2] and equal_p and not case["noise"] and FF is not None and not fix
                     and [f.shape[1] for f in FF] == req):
-                L, sc = leakage(FF, blocks(H, Nr, Nt), K, req)
+                L, sc = leakage(FF, blocks(H, Nr, Nt), K, req, per_stream=(name == "MinLeakageIASolver"))
                 costs.append((n, L, float(np.real(sv.get_cost())), sc))
         # --- monotone leakage / get_cost agrees with the oracle
         if costs:
@@ -596,11 +728,11 @@ def run_e1_case(chk, case):
                     chk.fail(("solve", name, "get_cost_increases"), dict(case, n=[n0, n1]),
                              observed="cost(%d)=%r -> cost(%d)=%r" % (n0, c0, n1, c1),
                              expected="non-increasing")
-            if name == "AlternatingMinIASolver" or max(req) == 1:
+            if True:        # AltMin: total; MinLeakage: per-stream (its filters have unit Frobenius norm)
                 for (n, L, c, sc) in costs:
                     if not abs(L - c) <= 1e-8 * max(abs(L), abs(c)) + 1e-11 * sc:
                         chk.fail(("solve", name, "get_cost_vs_leakage"), dict(case, n=n), observed=c,
-                                 expected=L, msg="get_cost() vs sum of the Ns smallest eigenvalues of Q_k")
+                                 expected=L, msg="get_cost() vs the eigenvalue sums of the check's own Q_k")
                         break
 
 
@@ -1504,6 +1636,7 @@ def all_jobs(tier):
     depth = 4 if tier == "thorough" else 3
     jobs = [("E3", b, depth) for b in e3_bases(tier)]
     jobs += [("TW", c, None) for c in twin_cases(tier)]
+    jobs += [("E1", c, None) for c in step_cases(tier)]
     jobs += [("E1", c, None) for c in e1_cases(tier)]
     return jobs
 
@@ -1516,6 +1649,9 @@ def main(chk: Check):
                "precoders have orthogonal equal-norm columns (single stream, or svd initialisation): the "
                "algorithms minimise over such precoders, a random multi-stream start is outside that set")
     chk.assume("monotone leakage is required for equal powers and noise-free channels only (as stated)")
+    chk.assume("leaked power of the minimum-leakage solver is measured through the unit-Frobenius-norm receive "
+               "filters it reports (each receiver's eigenvalue sum divided by its stream count); for equal "
+               "stream counts this is the plain total up to a constant factor")
     chk.assume("E3: a full_F that an MMSE solve produced (norm below sqrt(P)) may be kept after a power change "
                "as long as it respects the new power; otherwise full_F = F sqrt(P) is required exactly")
     chk.assume("E3: between a channel-side change and the next solver-side call (solve or a setter) the "
